@@ -1365,6 +1365,19 @@ def plan_C02_full(tier):
         qs.append(q)
     qs.append(leaf_query("parse_integer"))
     qs += [biglen_query(1), biglen_query(2)]
+    # verify on every tree shape with UNCONSTRAINED payload (names symbolic: order / duplicates decided by the solver,
+    # the previous-name bookkeeping across nested containers included)
+    from . import shapes
+    for root, T in ((1, 6 if tier == "quick" else 8), (2, 5 if tier == "quick" else 7)):
+        for node in shapes.gen_shapes(root, T, ("T", "S1"), 3):
+            if "n" not in node.label():
+                continue            # no field names: nothing the arbitrary-bytes queries do not cover
+            q = shape_doc_query("C02", 1, node, root, name="payload", timeout=1500)
+            q.mem_gb = 4
+            qs.append(q)
+    for root in (1, 2):
+        for node in shapes.chain_shapes(root, 4, True):
+            qs.append(shape_doc_query("C02", 1, node, root, name="payload", timeout=1500))
     # the array nesting limit through verify itself: 255 nested arrays accepted, 256 => MAX_DEPTH_ARRAY (structure concrete)
     qs += [deep_array_query(255, sym_inner=False), deep_array_query(256, sym_inner=False)]
     if tier != "quick":
